@@ -537,7 +537,11 @@ def check_deferred_application(ctx):
     if not adds:
         raise AnalysisError("molden._load_low: cannot find the statements that record the pure-function tags")
     setname = adds[0].func.value.id
-    uses = [n for n in f.own_nodes() if isinstance(n, ast.Compare) and any(isinstance(c, ast.Name) and c.id == setname for c in n.comparators) and isinstance(n.ops[0], ast.In)]
+    # every read of the recorded tags other than the recording calls themselves: a membership test here, or the set
+    # handed to a helper that applies it
+    pm0 = prog.parents(f)
+    recording = ("add", "update", "discard", "remove", "clear")
+    uses = [n for n in f.own_nodes() if isinstance(n, ast.Name) and n.id == setname and isinstance(n.ctx, ast.Load) and not (isinstance(pm0.get(id(n)), ast.Attribute) and pm0[id(n)].attr in recording)]
     if not uses:
         ctx.violate("R10", f"the recorded tags (`{setname}`) are never applied to the shells", f, f.node, construct="tags never applied")
         return
